@@ -285,11 +285,20 @@ var leafKinds = []leafKind{
 	// only Unicode case folding maps to ASCII (KELVIN SIGN, LONG S); an address with a display name, a mailto: prefix,
 	// edge white space; a text that is not in Unicode normalisation form C; a bare IPv4 address with port
 	{"str-email-lookalike-kelvin", MStr, func(g *Gen) *LNode { c := g.canary(); return g.secret(LS("jo\u212ae."+c+"@example.com"), ClsStr, c) }},
-	{"str-email-lookalike-long-s", MStr, func(g *Gen) *LNode { c := g.canary(); return g.secret(LS("acce\u017f\u017f."+c+"@example.com"), ClsStr, c) }},
-	{"str-email-display-name", MStr, func(g *Gen) *LNode { c := g.canary(); return g.secret(LS("Bob Builder <bob."+c+"@example.com>"), ClsStr, c) }},
+	{"str-email-lookalike-long-s", MStr, func(g *Gen) *LNode {
+		c := g.canary()
+		return g.secret(LS("acce\u017f\u017f."+c+"@example.com"), ClsStr, c)
+	}},
+	{"str-email-display-name", MStr, func(g *Gen) *LNode {
+		c := g.canary()
+		return g.secret(LS("Bob Builder <bob."+c+"@example.com>"), ClsStr, c)
+	}},
 	{"str-email-mailto", MStr, func(g *Gen) *LNode { c := g.canary(); return g.secret(LS("mailto:bob."+c+"@example.com"), ClsStr, c) }},
 	{"str-email-edge-space", MStr, func(g *Gen) *LNode { c := g.canary(); return g.secret(LS(" bob."+c+"@example.com\n"), ClsStr, c) }},
-	{"str-not-nfc", MStr, func(g *Gen) *LNode { c := g.canary(); return g.secret(LS("Zoe\u0308 "+c+" \u212b \u1100\u1161"), ClsStr, c) }},
+	{"str-not-nfc", MStr, func(g *Gen) *LNode {
+		c := g.canary()
+		return g.secret(LS("Zoe\u0308 "+c+" \u212b \u1100\u1161"), ClsStr, c)
+	}},
 	{"str-ipv4-with-port", MStr, func(g *Gen) *LNode {
 		g.nsec++
 		ip := fmt.Sprintf("10.%d.%d.7:27017", 1+g.nsec/200%200, 1+g.nsec%200)
